@@ -28,11 +28,38 @@ def jobs(tier):
     return js
 
 
+MO = 1
+DOC_REDIR = {
+    "(github.com/fxamacker/cbor/v2.EncOptions).EncMode": "dEncModeOf",
+    "github.com/sourcenetwork/defradb/internal/core/cid.NewSHA256CidV1": "dFixedCid",
+    "github.com/sourcenetwork/defradb/client.NewDocIDV0": "dFixedDocID",
+}
+
+
+def doc_jobs(tier):
+    return [{"id": f"O2.document-id-bytes.{wn}", "func": "VerifH_C13_DocBytes", "conf": {"way": w}, "map_order": bool(MO), "max_paths": 200000,
+             "_obligation": "O2", "_covers": ["built"], "unwind": 60} for w, wn in enumerate(("map-vs-map", "map-vs-set", "map-vs-json"))]
+
+
+from props import C20 as _c20
+
+VERIFY_REDIR = dict(_c20.API_REDIR)
+VERIFY_REDIR["(*github.com/sourcenetwork/defradb/client.Document).GenerateDocID"] = "sDocIDOfContent"
+
+
+def verify_jobs(tier):
+    return [{"id": "O3.create-verifies-document-id", "func": "VerifH_C13_CreateVerifiesDocID",
+             "conf": {"branchable": 0, "faults": 0, "dag": "", "orders": "all", "shortid": 0, "for": "C13"}, "_obligation": "O3", "_covers": ["created"], "unwind": 80}]
+
+
 PROPERTY = {
     "id": "C13",
     "suites": [{"name": "schemaid", "pkg": "internal/db", "files": ["zz_verif_env.go", "zz_verif_merge.go", "zz_verif_c13.go"],
                 "common": ["intrinsics", "kvmodel", "dagenv"], "jobs": jobs, "redirects": REDIR, "unwind": 200,
-                "overrides": {"github.com/sourcenetwork/defradb/client.CborNil": "bytes:f6"}, "witnesses": {"quick": 8, "thorough": 24}}],
+                "overrides": {"github.com/sourcenetwork/defradb/client.CborNil": "bytes:f6"}, "witnesses": {"quick": 8, "thorough": 24}},
+               dict(_c20.SAVE_SUITE, name="createverify", jobs=verify_jobs, redirects=VERIFY_REDIR, files=_c20.SAVE_FILES + ["zz_verif_c20api.go"], common=["intrinsics", "kvmodel", "dagenv", "kvtxn"]),
+               {"name": "docid", "pkg": "client", "files": ["zz_verif_c18.go", "zz_verif_c13doc.go"], "jobs": doc_jobs, "redirects": DOC_REDIR, "unwind": 60,
+                "overrides": {"github.com/sourcenetwork/defradb/client.CborNil": "bytes:f6"}}],
     "bounds": {"fixed shapes": "pair, three-cycle, self+pair, hub with undefined leaf + unrelated one-way, two pairs joined, cycle with undefined tails — each under every permutation and every map rotation", "schemas": "2 with <=2 relation fields each, 3 with <=1 (thorough tier only) whose targets range over all schemas of the set, an undefined type, or none",
                "orders": "every permutation of the definitions for the second run; every map range takes every rotation of the slot order (what go1.23 produces for maps of <=8 entries), independently per range and per run"},
     "assumptions": ["inside generateSetID, json.Marshal is an injective function of the value and the SHA-256 CID an injective function of the bytes (both replaced inside the solver run: canonical serialisation, identity multihash; the real ones run natively); the rest of generateSetID runs for real",
